@@ -22,6 +22,7 @@ import OpenFGAVerif.Model.StoreRead
 import OpenFGAVerif.Proofs.StoreRead
 import OpenFGAVerif.Proofs.UserStr
 import OpenFGAVerif.Gen.StoreRead
+import OpenFGAVerif.Props.Misc3
 
 namespace OpenFGAVerif.C13
 open OpenFGAVerif.Model.StoreTypes OpenFGAVerif.Model.StoreRead OpenFGAVerif.Proofs.StoreRead OpenFGAVerif.Proofs.UserStr
